@@ -196,8 +196,10 @@ class UCCSD(Ansatz):
         # Build qubit operator required to build UCCSD
         qubit_op = self._get_singlet_qubit_operator() if (self.spin == 0 and not self.molecule.uhf) else self._get_openshell_qubit_operator()
 
-        # If qubit operator terms have changed, rebuild circuit. Else, simply update variational gates directly
-        if set(self.pauli_to_angles_mapping.keys()) != set(qubit_op.terms.keys()):
+        # If qubit operator terms (or the order in which a build would visit them) have changed, rebuild circuit.
+        # Else, simply update variational gates directly
+        pauli_words = [pauli_word for pauli_word, _ in sorted(qubit_op.terms.items(), key=lambda x: len(x[0]))]
+        if list(self.pauli_to_angles_mapping.keys()) != pauli_words:
             self.build_circuit(var_params)
         else:
             for pauli_word, coef in qubit_op.terms.items():
